@@ -179,21 +179,36 @@ theorem C12_mono_partial (P : Prims) (L : PrimLaws P) (E : Env) (u : Unresolved)
 
 /-! ## (3) no_explicit_cast: a value converts only within its primitive group -/
 
-/-- **C12_group_conv** (partial in `complex-from-str-under-nec`): what a converter accepts under
-no_explicit_cast lies in the target's primitive group (`GroupOK`: the six groups, `Decimal` also from the
-string group, the date/time types also from strings and numbers, abstract collection classes pass their
-instances through).  Enum targets: `C12_group_enum`. -/
+/-- close a goal `GroupLaw cv v r ∨ (deviation cv v).isSome` for a concrete converter and value constructor -/
+local macro "grp" : tactic =>
+  `(tactic| simp [GroupLaw, inGroup, targetGroup, valueInGroup, docException, deviation, isDateLike, isZeroOneValue])
+
+/-- **C12_group_conv**: what a converter (other than `to_enum`: `C12_group_enum`) accepts under no_explicit_cast
+either obeys the property's table (`GroupLaw`: passed through unchanged / in the target's primitive group /
+documented exception) or is one of the five listed deviations of the code (`deviation`, findings.d). -/
 theorem C12_group_conv (P : Prims) (L : PrimLaws P) (E : Env) (d : Bool) (t : Target) (v : V) (cv : Conv) (r : V)
-    (hk : KnownDefect.complexFromStr cv v = false)
-    (hj : KnownDefect.jsonControlChar P E v = false)
-    (h : runConv P E ⟨true, d⟩ t v cv = .ok r) : GroupOK cv v = true := by
+    (hcv : cv ≠ .enum)
+    (h : runConv P E ⟨true, d⟩ t v cv = .ok r) : GroupLaw cv v r ∨ (deviation cv v).isSome = true := by
+  have num_case : ∀ cv', (cv' = .int ∨ cv' = .float ∨ cv' = .decimal ∨ cv' = .complex) → isNumber v = true →
+      GroupLaw cv' v r ∨ (deviation cv' v).isSome = true := by
+    intro cv' hc hn
+    rcases isNumber_cases v hn with ⟨b, rfl⟩ | hg
+    · rcases hc with rfl | rfl | rfl | rfl <;> grp
+    · rcases hc with rfl | rfl | rfl | rfl <;> simp [GroupLaw, inGroup, targetGroup, hg]
+  have ts_case : ∀ cv', (cv' = .date ∨ cv' = .datetime ∨ cv' = .timedelta) → isNumber v = true →
+      GroupLaw cv' v r ∨ (deviation cv' v).isSome = true := by
+    intro cv' hc hn
+    rcases isNumber_cases v hn with ⟨b, rfl⟩ | hg
+    · rcases hc with rfl | rfl | rfl <;> grp
+    · rcases hc with rfl | rfl | rfl <;> simp [GroupLaw, docException, hg]
   cases cv
+  case enum => exact absurd rfl hcv
   case null =>
     have h' := nec_reduce (X := fun f => toNull f v) (by rw [toNull_ndl]; exact Sub.refl _) d r h
-    cases v <;> simp [toNull] at h' <;> rfl
+    cases v <;> simp [toNull] at h' <;> grp
   case str =>
     have h' := nec_reduce (X := fun f => toStr P E f (subOf t) v) (toStr_ndl P L E true _ v) d r h
-    cases v <;> simp [toStr, attemptFrom, fromByteLike, isInst, V.cls?, Base.sub] at h' <;> try rfl
+    cases v <;> simp [toStr, attemptFrom, fromByteLike, isInst, V.cls?, Base.sub] at h' <;> try grp
     case seq k c' xs => cases k <;> simp [SeqK.base] at h'
   case bytes =>
     cases t with
@@ -204,7 +219,7 @@ theorem C12_group_conv (P : Prims) (L : PrimLaws P) (E : Env) (d : Bool) (t : Ta
       | some k =>
         simp only [hk'] at h
         have h' := nec_reduce (X := fun f => toBytes P E f k c v) (toBytes_ndl P E true k c v) d r h
-        cases v <;> simp [toBytes, attemptFrom] at h' <;> rfl
+        cases v <;> simp [toBytes, attemptFrom] at h' <;> grp
     | _ => simp [runConv] at h
   case array =>
     cases t with
@@ -217,113 +232,157 @@ theorem C12_group_conv (P : Prims) (L : PrimLaws P) (E : Env) (d : Bool) (t : Ta
         have h' := nec_reduce (X := fun f => toArray P f k c v) (toArray_ndl P L true k c v) d r h
         unfold toArray at h'
         split at h'
-        · rename_i hi; exact isInst_seq v k (isInstT_isInst v _ c hi)
+        · left; left; simpa using h'.symm
         · split at h'
-          · rename_i hm; cases v <;> simp [multi] at hm; rfl
+          · rename_i hm; cases v <;> simp [multi] at hm; grp
           · simp at h'
     | _ => simp [runConv] at h
   case dict =>
-    have h' := nec_reduce (X := fun f => toDict P E f (subOf t) v) (toDict_ndl P L E true _ v hj) d r h
+    have h' : toDict P E ⟨true, false⟩ (subOf t) v = .ok r := by
+      cases d
+      · exact h
+      · simp only [runConv] at h
+        unfold toDict at h ⊢
+        split at h
+        · rename_i h1; simp only [h1, if_true]; exact h
+        · rename_i h1; simp only [h1]
+          split at h
+          · exact h
+          · simp at h
     unfold toDict at h'
     split at h'
-    · rename_i hi; exact isInst_dict v (isInstT_isInst v _ _ hi)
+    · left; left; simpa using h'.symm
     · split at h'
-      · rfl
+      · grp
       · simp at h'
   case mapping =>
-    have h' := nec_reduce (X := fun f => toMapping P E f v) (toMapping_ndl P L E true v hj) d r h
+    have h' : toMapping P E ⟨true, false⟩ v = .ok r := by
+      cases d
+      · exact h
+      · simp only [runConv] at h
+        unfold toMapping toDict at h ⊢
+        split at h
+        · rename_i h1; simp only [h1, if_true]; exact h
+        · rename_i h1; simp only [h1]
+          split at h
+          · rename_i h2; simp only [h2, if_true]; exact h
+          · rename_i h2; simp only [h2]
+            split at h
+            · exact h
+            · simp at h
     unfold toMapping at h'
     split at h'
-    · rename_i hi; exact isInst_dict v hi
+    · left; left; simpa using h'.symm
     · unfold toDict at h'
       split at h'
-      · rename_i hi; exact isInst_dict v (isInstT_isInst v _ _ hi)
+      · left; left; simpa using h'.symm
       · split at h'
-        · rfl
+        · grp
         · simp at h'
   case float =>
     have h' := nec_reduce (X := fun f => toFloat P E f (subOf t) v) (toFloat_ndl P L E true _ v) d r h
+    refine num_case .float (by simp) ?_
     unfold toFloat at h'
     split at h'
-    · simp [GroupOK, isNumber, isInst, V.cls?, Base.sub]
+    · simp [isNumber, isInst, V.cls?, Base.sub]
     · simp only [if_true] at h'
       split at h'
       · rename_i hi
         simp at hi
-        rcases hi with hi | hi <;> simp [GroupOK, isNumber, hi]
+        rcases hi with hi | hi <;> simp [isNumber, hi]
       · simp at h'
   case int =>
     have h' := nec_reduce (X := fun f => toInteger P E f (subOf t) v) (toInteger_ndl P L E true _ v) d r h
+    refine num_case .int (by simp) ?_
     unfold toInteger at h'
     split at h'
-    · simp [GroupOK, isNumber, isInst, V.cls?, Base.sub]
-    · simp [GroupOK, isNumber, isInst, V.cls?, Base.sub]
+    · simp [isNumber, isInst, V.cls?, Base.sub]
+    · simp [isNumber, isInst, V.cls?, Base.sub]
     · simp only [if_true] at h'
       split at h'
       · rename_i hi
         simp at hi
-        rcases hi with hi | hi <;> simp [GroupOK, isNumber, hi]
+        rcases hi with hi | hi <;> simp [isNumber, hi]
       · simp at h'
   case decimal =>
     have h' := nec_reduce (X := fun f => toDecimal P E f (subOf t) v) (toDecimal_ndl_nec P L E _ v) d r h
     unfold toDecimal at h'
     split at h'
-    · simp [GroupOK, isNumber, isInst, V.cls?, Base.sub]
+    · grp
     · simp only [if_true] at h'
       obtain ⟨d1, hd1, _⟩ := Outcome.bind_eq_ok.mp h'
       obtain ⟨d2, hd2, hd3⟩ := Outcome.bind_eq_ok.mp hd1
       split at hd3
       · rename_i hi
-        exact fromByteLike_group P _ v d2 hd2 (scalar_group d2 hi)
+        have hg := fromByteLike_group P _ v d2 hd2 (scalar_group d2 hi)
+        simp at hg
+        rcases hg with hg | hg
+        · exact num_case .decimal (by simp) hg
+        · left; right; right; simp [docException, isString_group v hg]
       · simp at hd3
   case complex =>
     have h' := nec_reduce (X := fun f => toComplex P E f (subOf t) v) (toComplex_ndl P L E true _ v) d r h
     unfold toComplex at h'
     split at h'
-    · rename_i hi; exact isInst_complex v (isInstT_isInst v _ _ hi)
+    · left; left; simpa using h'.symm
     · simp only [if_true] at h'
       obtain ⟨d2, hd2, hd3⟩ := Outcome.bind_eq_ok.mp h'
       split at hd3
       · rename_i hi
         have hg := fromByteLike_group P _ v d2 hd2 (scalar_group d2 (by
           simp at hi ⊢; rcases hi with ((hi | hi) | hi) | hi <;> simp [hi]))
-        simp [KnownDefect.complexFromStr] at hk
-        simp [GroupOK]
         simp at hg
         rcases hg with hg | hg
-        · exact hg
-        · simp [hk] at hg
+        · exact num_case .complex (by simp) hg
+        · right
+          have := isString_group v hg
+          cases v <;> simp [valueInGroup] at this <;> grp
       · simp at hd3
   case bool =>
     have h' := nec_reduce (X := fun f => Conv.toBool P f v) (toBool_ndl P true v) d r h
     unfold Conv.toBool at h'
+    have fin : ∀ n : Int, (n = 0 ∨ n = 1) → eqSmall v n = .ok true →
+        GroupLaw .bool v r ∨ (deviation .bool v).isSome = true := by
+      intro n hn he
+      rcases eqSmall_spec v n he with ⟨b, rfl, _⟩ | ⟨c, rfl⟩ | hz
+      · grp
+      · rcases hn with rfl | rfl <;> grp
+      · right
+        have : isZeroOneValue v = true := by rcases hn with rfl | rfl <;> simp [isZeroOneValue, hz]
+        cases v <;> simp [deviation, this]
     split at h'
-    · simp [GroupOK, isBoolLike]
+    · grp
     · obtain ⟨b1, hb1, h2⟩ := Outcome.bind_eq_ok.mp h'
       split at h2
-      · rename_i hb; subst hb; simp [GroupOK, isBoolLike, hb1, okTrue]
+      · rename_i hb; subst hb; exact fin 1 (Or.inr rfl) hb1
       · obtain ⟨b0, hb0, h3⟩ := Outcome.bind_eq_ok.mp h2
         split at h3
-        · rename_i hb; subst hb; simp [GroupOK, isBoolLike, hb0, okTrue]
+        · rename_i hb; subst hb; exact fin 0 (Or.inl rfl) hb0
         · simp at h3
-  case enum => rfl
   case datetime =>
     have h' := nec_reduce (X := fun f => toDatetime P E f (subOf t) false v) (toDatetime_ndl P L E true _ false v) d r h
-    exact toDatetime_nec_group P E _ false v r h'
+    rcases toDatetime_nec_group P E _ false v r h' with h1 | h1 | h1 | h1
+    · left; left; exact h1
+    · right; cases v <;> simp [isDateLike] at h1 <;> grp
+    · exact ts_case .datetime (by simp) h1
+    · left; right; right; simp [docException, isString_group v h1]
   case date =>
     have h' := nec_reduce (X := fun f => toDate P E f v) (toDate_ndl P L E true v) d r h
-    unfold toDate at h'
-    split at h'
-    · simp [GroupOK, isTemporal]
-    · simp [GroupOK, isTemporal]
-    · obtain ⟨dt, hdt, _⟩ := Outcome.bind_eq_ok.mp h'
-      exact toDatetime_nec_group P E _ true v dt hdt
+    cases v with
+    | datetime c' dd tt => grp
+    | date c' dd => left; left; simpa [toDate] using h'.symm
+    | _ =>
+      simp only [toDate] at h'
+      obtain ⟨dt, hdt, _⟩ := Outcome.bind_eq_ok.mp h'
+      rcases toDatetime_nec_kind P E _ true _ dt hdt with h1 | h1 | h1
+      · simp [isDateLike] at h1
+      · exact ts_case .date (by simp) h1
+      · left; right; right; simp [docException, isString_group _ h1]
   case timedelta =>
     have h' := nec_reduce (X := fun f => toTimedelta P E f (subOf t) v) (toTimedelta_ndl P L E true _ v) d r h
     unfold toTimedelta at h'
     split at h'
-    · rename_i hi
-      simp [GroupOK, isInst_temporal v _ (Or.inr (Or.inl rfl)) (isInstT_isInst v _ _ hi)]
+    · left; left; simpa using h'.symm
     · simp only [attemptFrom, if_true, Outcome.ok_bind] at h'
       obtain ⟨d2, hd2, h3⟩ := Outcome.bind_eq_ok.mp h'
       cases hf : toFloat P E ⟨true, false⟩ 0 d2 with
@@ -338,11 +397,15 @@ theorem C12_group_conv (P : Prims) (L : PrimLaws P) (E : Env) (d : Bool) (t : Ta
             · simp at hf
         have := fromByteLike_group P _ v d2 hd2 (by simp [hn])
         simp at this
-        rcases this with h1 | h1 <;> simp [GroupOK, h1]
+        rcases this with h1 | h1
+        · exact ts_case .timedelta (by simp) h1
+        · left; right; right; simp [docException, isString_group v h1]
       | perr e =>
         simp only [hf] at h3
         split at h3
-        · rename_i c' s; simp [GroupOK, fromByteLike_str_string P _ v c' s hd2]
+        · rename_i c' s
+          left; right; right
+          simp [docException, isString_group v (fromByteLike_str_string P _ v c' s hd2)]
         · simp at h3
       | escape e => simp [hf] at h3
       | diverge => simp [hf] at h3
@@ -351,18 +414,17 @@ theorem C12_group_conv (P : Prims) (L : PrimLaws P) (E : Env) (d : Bool) (t : Ta
     have h' := nec_reduce (X := fun f => toTime P E f (subOf t) v) (toTime_ndl P L E true _ v) d r h
     unfold toTime at h'
     split at h'
-    · rename_i hi
-      simp [GroupOK, isInst_temporal v _ (Or.inr (Or.inr (Or.inl rfl))) (isInstT_isInst v _ _ hi)]
+    · left; left; simpa using h'.symm
     · simp only [attemptFrom, if_true, Outcome.ok_bind, Bool.false_eq_true, if_false] at h'
-      cases v <;> simp [fromByteLike] at h' <;> simp [GroupOK, isTemporal, isString]
+      cases v <;> simp [fromByteLike] at h' <;> grp
   case uuid =>
     have h' := nec_reduce (X := fun f => toUuid P f (subOf t) v) (toUuid_ndl P true _ v) d r h
     unfold toUuid at h'
     split at h'
-    · rename_i hi; simp [GroupOK, isInst_uuid v (isInstT_isInst v _ _ hi)]
+    · left; left; simpa using h'.symm
     · split at h'
-      · simp [GroupOK, isString]
-      · simp [GroupOK, isString]
+      · grp
+      · grp
       · simp at h'
   case iter =>
     cases t with
@@ -371,15 +433,51 @@ theorem C12_group_conv (P : Prims) (L : PrimLaws P) (E : Env) (d : Bool) (t : Ta
       have h' := nec_reduce (X := fun f => toIter P f a v) (toIter_ndl P L true a v) d r h
       unfold toIter at h'
       split at h'
-      · rename_i hi
-        exact isInstAbc_group v a hi
+      · left; left; simpa using h'.symm
       · unfold toArray at h'
         split at h'
-        · rename_i hi; simp [GroupOK, isInst_seq v .list (isInstT_isInst v _ _ hi)]
+        · left; left; simpa using h'.symm
         · split at h'
-          · rename_i hm; cases v <;> simp [multi] at hm; simp [GroupOK, isArray]
+          · rename_i hm; cases v <;> simp [multi] at hm; grp
           · simp at h'
     | _ => simp [runConv] at h
+
+/-- **C12_group_partial**: the property's clause itself, partial in the listed deviations: under no_explicit_cast a
+value that converts was passed through unchanged, lies in the target's primitive group, or is a documented
+exception (Decimal from the string group; date/time types from their string and timestamp forms). -/
+theorem C12_group_partial (P : Prims) (L : PrimLaws P) (E : Env) (d : Bool) (t : Target) (v : V) (cv : Conv) (r : V)
+    (hcv : cv ≠ .enum) (hd : deviation cv v = none)
+    (h : runConv P E ⟨true, d⟩ t v cv = .ok r) : GroupLaw cv v r := by
+  rcases C12_group_conv P L E d t v cv r hcv h with h1 | h1
+  · exact h1
+  · simp [hd] at h1
+
+/-- **C12_group_transformU**: the same at `TypeTransformer.__call__`: the exact-type shortcut and
+`handle_unresolved` pass the value through (or raise), except `unresolved_types='init'`, which calls the class. -/
+theorem C12_group_transformU (P : Prims) (L : PrimLaws P) (E : Env) (u : Unresolved) (d : Bool) (t : Target) (v r : V)
+    (h : transformU P E ⟨true, d⟩ u t v = .ok r) :
+    r = v ∨ (resolve t = none ∧ u = .init) ∨
+    ∃ cv, resolve t = some cv ∧ (cv = .enum ∨ GroupLaw cv v r ∨ (deviation cv v).isSome = true) := by
+  unfold transformU at h
+  split at h
+  · left; simpa using h.symm
+  · split at h
+    · simp at h
+    · split at h
+      · rename_i hr
+        unfold handleUnresolved at h
+        split at h
+        · left; simpa using h.symm
+        · cases u
+          · simp at h
+          · right; left; exact ⟨hr, rfl⟩
+          · left; simpa using h.symm
+      · rename_i cv hcv
+        right; right
+        refine ⟨cv, hcv, ?_⟩
+        by_cases he : cv = .enum
+        · left; exact he
+        · right; exact C12_group_conv P L E d t v cv r he h
 
 /-- **C12_group_enum**: under no_explicit_cast an Enum target is reached by value only: the result is the
 input itself (already a member) or the first member whose value `==` the input. -/
@@ -412,21 +510,6 @@ theorem C12_group_enum (P : Prims) (E : Env) (d : Bool) (k : Nat) (v r : V)
 
 /-! ## (2) the promises of no_data_loss -/
 
-/-- the integer a number equals, if it has no fractional part (spec vocabulary, independent of the code:
-floats are `m·2^e`, Decimals `±c·10^e`) -/
-def exactInt? : V → Option Int
-  | .bool b => some (if b then 1 else 0)
-  | .int _ i => some i
-  | .float _ (.fin m e) =>
-    if e ≥ 0 then some (m * 2 ^ e.toNat)
-    else if m % (2 ^ (-e).toNat) = 0 then some (m / 2 ^ (-e).toNat) else none
-  | .dec _ (.fin s c e) =>
-    let n : Option Int :=
-      if e ≥ 0 then some ((c : Int) * 10 ^ e.toNat)
-      else if (c : Int) % (10 ^ (-e).toNat) = 0 then some ((c : Int) / 10 ^ (-e).toNat) else none
-    n.map fun x => if s then -x else x
-  | _ => none
-
 theorem signed_natAbs (m : Int) (k : Nat) :
     (if decide (m < 0) = true then -(((m.natAbs * k : Nat) : Int)) else ((m.natAbs * k : Nat) : Int)) = m * k := by
   by_cases h : m < 0
@@ -447,7 +530,7 @@ theorem intFinish_exact (P : Prims) (n : Bool) (c : Nat) (v r : V)
       by_cases he : e ≥ 0
       · simp [intFinish, decimalOf, decOfFloatExact, he, decFinExp0, intOfDec] at h
         refine ⟨_, h.symm, ?_⟩
-        simp only [exactInt?, he, if_true]
+        simp only [exactInt?, exactIntF, he, if_true]
         have := signed_natAbs m (2 ^ e.toNat)
         simp only [Int.natCast_pow, Int.natCast_mul] at this ⊢
         simpa using this.symm
@@ -462,7 +545,7 @@ theorem intFinish_exact (P : Prims) (n : Bool) (c : Nat) (v r : V)
       · subst he
         simp [intFinish, decimalOf, decFinExp0, intOfDec] at h
         refine ⟨_, h.symm, ?_⟩
-        simp [exactInt?]
+        simp [exactInt?, exactIntD]
       · simp [intFinish, decimalOf, decFinExp0, he] at h
     | inf s => simp [intFinish, decimalOf, decFinExp0] at h
     | nan s => simp [intFinish, decimalOf, decFinExp0] at h
@@ -495,12 +578,12 @@ theorem C12_ndl_int (P : Prims) (E : Env) (n : Bool) (c : Nat) (v r : V)
       case float c' f =>
         cases f <;> simp [truthy, fZero] at ht
         subst ht
-        simp only [exactInt?]
+        simp only [exactInt?, exactIntF]
         split <;> simp
       case dec c' d =>
         cases d <;> simp [truthy] at ht
         subst ht
-        simp only [exactInt?]
+        simp only [exactInt?, exactIntD]
         split <;> simp
   · have : intFinish P ⟨true, true⟩ c v = .ok r := by
       cases v <;> simp at hv <;> simpa [toInteger, isInst, V.cls?, Base.sub] using h
@@ -512,27 +595,40 @@ def boolText (P : Prims) (v : V) : Outcome String :=
   | .bytes .bytes _ bs => decodeB P true bs
   | _ => pyStr P v
 
-/-- **C12_ndl_bool**: under no_data_loss only unambiguous booleans become bool: a bool, a number equal to
-0 / 1, or a text whose lower-case form is in the generated FALSE_VALUES / TRUE_VALUES tables. -/
+/-- **C12_ndl_bool**: under no_data_loss only unambiguous booleans become bool: a bool (returned as is); the
+int 0 / 1 or a float / Decimal / complex whose exact value (`numValueIs`, from `m·2^e` / `±c·10^e`) is 0 / 1,
+giving False / True accordingly; or a text (`boolText`: a str, strictly decoded bytes, or the `str()` of the
+value) whose lower-case form is in the generated FALSE_VALUES / TRUE_VALUES tables. -/
 theorem C12_ndl_bool (P : Prims) (n : Bool) (v r : V) (h : Conv.toBool P ⟨n, true⟩ v = .ok r) :
-    r = v ∨ (r = .bool true ∧ eqSmall v 1 = .ok true) ∨ (r = .bool false ∧ eqSmall v 0 = .ok true) ∨
+    ((∃ b, v = .bool b) ∧ r = v) ∨
+    (∃ i : Int, (i = 0 ∨ i = 1) ∧ r = .bool (i == 1) ∧ ((∃ c, v = .int c i) ∨ numValueIs v i = true)) ∨
     ∃ s, boolText P v = .ok s ∧
       ((r = .bool false ∧ Utv.Gen.Tables.FALSE_VALUES.contains (pyLower s) = true) ∨
        (r = .bool true ∧ Utv.Gen.Tables.TRUE_VALUES.contains (pyLower s) = true)) := by
   unfold Conv.toBool at h
   split at h
-  · left; simpa using h.symm
-  · obtain ⟨b1, hb1, h2⟩ := Outcome.bind_eq_ok.mp h
+  · left; exact ⟨⟨_, rfl⟩, by simpa using h.symm⟩
+  · rename_i hnb
+    obtain ⟨b1, hb1, h2⟩ := Outcome.bind_eq_ok.mp h
+    have num : ∀ i : Int, (i = 0 ∨ i = 1) → eqSmall v i = .ok true → r = .bool (i == 1) →
+        (∃ i : Int, (i = 0 ∨ i = 1) ∧ r = .bool (i == 1) ∧ ((∃ c, v = .int c i) ∨ numValueIs v i = true)) := by
+      intro i hi he hr
+      rcases eqSmall_spec v i he with ⟨b, hv, _⟩ | hc | hz
+      · exact absurd hv (hnb b)
+      · exact ⟨i, hi, hr, Or.inl hc⟩
+      · exact ⟨i, hi, hr, Or.inr hz⟩
     split at h2
-    · rename_i hb; subst hb; right; left; exact ⟨by simpa using h2.symm, hb1⟩
+    · rename_i hb; subst hb; right; left
+      exact num 1 (Or.inr rfl) hb1 (by simpa using h2.symm)
     · obtain ⟨b0, hb0, h3⟩ := Outcome.bind_eq_ok.mp h2
       split at h3
-      · rename_i hb; subst hb; right; right; left; exact ⟨by simpa using h3.symm, hb0⟩
+      · rename_i hb; subst hb; right; left
+        exact num 0 (Or.inl rfl) hb0 (by simpa using h3.symm)
       · split at h3
         · simp at h3
         · obtain ⟨d, hd, h4⟩ := Outcome.bind_eq_ok.mp h3
           obtain ⟨s, hs, h5⟩ := Outcome.bind_eq_ok.mp h4
-          right; right; right
+          right; right
           refine ⟨s, ?_, ?_⟩
           · unfold boolText
             split at hd
@@ -630,9 +726,10 @@ theorem C12_ndl_no_collapse (P : Prims) (E : Env) (n : Bool) (t : Target) (k : S
   case uuid =>
     simp [runConv, toUuid, hT] at h
 
-/-- **C12_ndl_strict_decode**: under no_data_loss `_from_byte_like` yields exactly what the *strict* decoder
+/-- helper (unfolds `fromByteLike`; the converter-level statement is `C12_ndl_strict_decode_conv`): under
+no_data_loss `_from_byte_like` yields exactly what the *strict* decoder
 accepts (a byte string that is not valid UTF-8 is never turned into text). -/
-theorem C12_ndl_strict_decode (P : Prims) (n : Bool) (k : BytesK) (c : Nat) (bs : List UInt8) (d : V)
+theorem fromByteLike_ndl_strict (P : Prims) (n : Bool) (k : BytesK) (c : Nat) (bs : List UInt8) (d : V)
     (h : fromByteLike P ⟨n, true⟩ (.bytes k c bs) = .ok d) : ∃ s, d = .str 0 s ∧ decodeB P true bs = .ok s := by
   simp only [fromByteLike] at h
   obtain ⟨s, hs, hd⟩ := Outcome.bind_eq_ok.mp h
@@ -666,12 +763,14 @@ theorem C12_ndl_date_midnight (P : Prims) (E : Env) (n : Bool) (v r : V)
 /-! ### parse level: tuple excess, unknown keys, list input of a data class -/
 
 open Utv.C12M in
-/-- **C12_ndl_addition**: `Options(no_data_loss=True)` never leaves `addition` unset / None: unknown keys are
-rejected unless the caller explicitly asked to keep them. -/
-theorem C12_ndl_addition (a : Addition) :
+/-- **C12_ndl_addition**: `Options(no_data_loss=True)` never leaves `addition` unset / None, and then a key the
+class does not take is rejected — an unknown name as well as the name of an excluded (private / ClassVar)
+attribute — unless the caller explicitly asked to keep additions (`addition=True`; excluded names are
+then dropped, as without the preference). -/
+theorem C12_ndl_addition (a : Addition) (excluded : Bool) :
     normAddition true a ≠ .unset ∧ normAddition true a ≠ .none ∧
-    (a ≠ .yes → unknownKey (normAddition true a) = .rejected) := by
-  cases a <;> decide
+    (a ≠ .yes → unknownKey excluded (normAddition true a) = .rejected) := by
+  cases a <;> cases excluded <;> decide
 
 open Utv.C12M in
 /-- **C12_ndl_tuple_excess**: under no_data_loss every item beyond the declared prefix is reported
@@ -778,8 +877,33 @@ def Pcx : Prims := { P0 with complexOf := fun _ => .ok (.complex (.fin 1 0) (.fi
 /-- under no_explicit_cast a str converts to complex although it is not in the number group -/
 theorem C12_complex_from_str_witness :
     ∃ (P : Prims) (E : Env) (v r : V), transformU P E ⟨true, false⟩ .throw (.cls .complex 0) v = .ok r ∧
-      GroupOK .complex v = false ∧ KnownDefect.complexFromStr .complex v = true :=
-  ⟨Pcx, E0, .str 0 "1+3j", .complex (.fin 1 0) (.fin 3 0), by rfl, by rfl, by rfl⟩
+      inGroup .complex v = false ∧ docException .complex v = false ∧ r ≠ v ∧
+      deviation .complex v = some .complexFromStr ∧ KnownDefect.complexFromStr .complex v = true :=
+  ⟨Pcx, E0, .str 0 "1+3j", .complex (.fin 1 0) (.fin 3 0), by rfl, by rfl, by rfl, by simp, by rfl, by rfl⟩
+
+/-- builtins for the deviation witnesses: `float(1) = 1.0`, `UUID(text)`, `utcfromtimestamp` -/
+def Pdev : Prims :=
+  { P0 with floatOfInt := fun _ => .ok (.fin 1 0), uuidOfStr := fun _ => .ok 5 }
+
+/-- **C12_group_deviation_witnesses**: each deviation of the code from the property's table happens (none of the
+results is the input, none of the inputs is in the target's group or a documented exception):
+True → 1.0, 1.0 → True, datetime → date, text → UUID under no_explicit_cast. -/
+theorem C12_group_deviation_witnesses :
+    (runConv Pdev E0 ⟨true, false⟩ (.cls .float 0) (.bool true) .float = .ok (.float 0 (.fin 1 0)) ∧
+      inGroup .float (.bool true) = false ∧ docException .float (.bool true) = false ∧
+      deviation .float (.bool true) = some .boolAsNumber) ∧
+    (runConv Pdev E0 ⟨true, false⟩ (.cls .bool 0) (.float 0 (.fin 1 0)) .bool = .ok (.bool true) ∧
+      inGroup .bool (.float 0 (.fin 1 0)) = false ∧ docException .bool (.float 0 (.fin 1 0)) = false ∧
+      deviation .bool (.float 0 (.fin 1 0)) = some .zeroOneLike) ∧
+    (runConv Pdev E0 ⟨true, false⟩ (.cls .date 0) (.datetime 0 ⟨2020, 1, 2⟩ ⟨3, 4, 5, 0, none⟩) .date = .ok (.date 0 ⟨2020, 1, 2⟩) ∧
+      inGroup .date (.datetime 0 ⟨2020, 1, 2⟩ ⟨3, 4, 5, 0, none⟩) = false ∧
+      docException .date (.datetime 0 ⟨2020, 1, 2⟩ ⟨3, 4, 5, 0, none⟩) = false ∧
+      deviation .date (.datetime 0 ⟨2020, 1, 2⟩ ⟨3, 4, 5, 0, none⟩) = some .temporalCross) ∧
+    (runConv Pdev E0 ⟨true, false⟩ (.cls .uuid 0) (.str 0 "x") .uuid = .ok (.uuid 0 5) ∧
+      inGroup .uuid (.str 0 "x") = false ∧ docException .uuid (.str 0 "x") = false ∧
+      deviation .uuid (.str 0 "x") = some .uuidFromString) :=
+  ⟨⟨by rfl, by rfl, by rfl, by rfl⟩, ⟨by rfl, by rfl, by rfl, by rfl⟩, ⟨by rfl, by rfl, by rfl, by rfl⟩,
+    ⟨by rfl, by rfl, by rfl, by rfl⟩⟩
 
 /-! non-vacuity: the hypotheses of the partial theorems are satisfiable together with a successful conversion -/
 
@@ -794,8 +918,18 @@ example : ∃ (P : Prims) (E : Env) (v r : V), KnownDefect.timedeltaNumericStrin
     toTimedelta P E ⟨true, false⟩ 0 v = .ok r :=
   ⟨{ Ptd with floatOfStr := fun _ => .perr .valueError, durationMatch := fun _ _ => .ok (some []) }, E0, .str 0 "P1D", .delta 0 5123456, by rfl, by rfl⟩
 
-example : ∃ (cv : Conv) (v : V), KnownDefect.complexFromStr cv v = false ∧ GroupOK cv v = true :=
-  ⟨.complex, .int 0 1, by rfl, by rfl⟩
+/-- all hypotheses of `C12_group_partial` together with a successful conversion (1.0 → complex, in the number group) -/
+example : ∃ (P : Prims) (_ : PrimLaws P) (E : Env) (d : Bool) (t : Target) (v : V) (cv : Conv) (r : V),
+    cv ≠ .enum ∧ deviation cv v = none ∧ runConv P E ⟨true, d⟩ t v cv = .ok r ∧ GroupLaw cv v r :=
+  ⟨P0, P0_laws, E0, true, .cls .complex 0, .float 0 (.fin 1 0), .complex, .complex (.fin 1 0) (.fin 0 0),
+    by decide, by rfl, by rfl, Or.inr (Or.inl (by rfl))⟩
+
+/-- … and with a documented exception (text → Decimal) -/
+example : ∃ (P : Prims) (E : Env) (v r : V),
+    deviation .decimal v = none ∧ runConv P E ⟨true, true⟩ (.cls .decimal 0) v .decimal = .ok r ∧
+    inGroup .decimal v = false ∧ docException .decimal v = true :=
+  ⟨{ P0 with decOfStr := fun _ => .ok (.fin false 15 (-1)) }, E0, .str 0 "1.5", .dec 0 (.fin false 15 (-1)),
+    by rfl, by rfl, by rfl, by rfl⟩
 
 /-- the enum of the fixed finding `enum-name-shadows-value`: `class E(Enum): A = 'B'; B = 'C'` -/
 def Eab : Env := ⟨[{ memberType := none, members := [("A", .str 0 "B"), ("B", .str 0 "C")] }]⟩
@@ -835,7 +969,7 @@ theorem C12_dataclass_list_nec_witness :
       rw [this] at h; simp at h,
     by rfl⟩
 
-/-! ### Union targets: the stages built from the flags (rule.py:381-431) -/
+/-! ### Union targets: the stages built from the flags (rule.py:386-435) -/
 
 open Utv.C12M in
 /-- the stage skeleton with no_data_loss (alone or with no_explicit_cast) returns its lenient result, for
@@ -921,10 +1055,11 @@ theorem C12_union_mono_partial (conv : Flags → Target → V → Outcome V) (f 
   · exact unionStages_ndl _ _ n v r h
 
 open Utv.C12M in
-/-- **C12_union_member_isolation**: each member of a pass runs in its own sub-context, so a pass is "the first
+/-- **C12_union_member_isolation_restates_model** (a property of the hand model `runMember`, tied by the Union
+cases of the correspondence run): each member of a pass runs in its own sub-context, so a pass is "the first
 member that converts in a clean context" — whether a member is a Rule (which would trip over an error left in
 a shared context) does not matter. -/
-theorem C12_union_member_isolation (ms : List (Bool × Outcome V)) :
+theorem C12_union_member_isolation_restates_model (ms : List (Bool × Outcome V)) :
     passFresh ms = passFresh (ms.map fun m => (false, m.2)) := by
   induction ms with
   | nil => rfl
@@ -996,25 +1131,301 @@ theorem C12_ndl_dataclass_instances (isExact isInst : V → Bool) (allowSub n : 
       | _ => simpa [dataclassStep] using h
     · cases v <;> simpa [dataclassStep] using h
 
-/-! ### preferences that arrive by inheritance / from an outer class (base.py:41-64, options.py:249-258) -/
+/-! ### further promise theorems: bool / complex / enum targets, converter-level strict decoding, unwrapped numbers,
+the data-class input under the running transformer's preferences -/
 
-/-- `getattr(cls, '__options__', None)` along the MRO (the class itself first): the nearest declaration -/
-def declaredFlags : List (Option Flags) → Flags
-  | [] => ⟨false, false⟩
-  | some f :: _ => f
-  | none :: rest => declaredFlags rest
+/-- law of CPython's `str()` the bool clause needs (audited every run): the text of a list / tuple / set is never
+one of the boolean words -/
+def StrOfSeqLaw (P : Prims) : Prop :=
+  ∀ k c xs s, P.strOf (.seq k c xs) = .ok s →
+    Utv.Gen.Tables.FALSE_VALUES.contains (pyLower s) = false ∧ Utv.Gen.Tables.TRUE_VALUES.contains (pyLower s) = false
 
-/-- `Options.make_context(context=outer)`: the outer context's options replace the class's own only when the
-outer ones say `override` and the own ones do not -/
-def contextFlags (own : Flags × Bool) (outer : Option (Flags × Bool)) : Flags :=
-  match outer with
-  | some (fo, true) => if own.2 then own.1 else fo
-  | _ => own.1
+/-- **C12_ndl_no_collapse_bool**: under no_data_loss no list / tuple / set / deque becomes a bool -/
+theorem C12_ndl_no_collapse_bool (P : Prims) (hl : StrOfSeqLaw P) (n : Bool) (k : SeqK) (c : Nat) (xs : List V) (r : V) :
+    Conv.toBool P ⟨n, true⟩ (.seq k c xs) ≠ .ok r := by
+  intro h
+  cases n
+  · simp [Conv.toBool, eqSmall, num?, pyStr] at h
+    obtain ⟨s, hs, h2⟩ := Outcome.bind_eq_ok.mp h
+    obtain ⟨hf, ht⟩ := hl k c xs s hs
+    simp at hf ht
+    simp [hf, ht] at h2
+  · simp [Conv.toBool, eqSmall, num?] at h
 
-/-- **C12_inherited_preferences**: a class that declares no options of its own (at any depth) is parsed under
+/-- **C12_ndl_no_collapse_complex**: the only multi-element collection `to_complex` takes under no_data_loss is the
+documented pair form `(re, im)` — `complex(*data)`, both items used, nothing dropped -/
+theorem C12_ndl_no_collapse_complex (P : Prims) (E : Env) (n : Bool) (c' : Nat) (k : SeqK) (c : Nat) (xs : List V) (r : V)
+    (hm : multi (.seq k c xs) = true) (hl : xs.length > 1)
+    (h : toComplex P E ⟨n, true⟩ c' (.seq k c xs) = .ok r) : n = false ∧ k = .tuple ∧ xs.length = 2 := by
+  have ha := attemptFrom_ndl_multi E k c xs hm hl
+  have hT : isInstT (V.seq k c xs) (.cls .complex c') = false := by
+    cases c' <;> cases k <;> simp [isInstT, isInst, V.cls?, Base.sub, SeqK.base]
+  cases n
+  · simp only [toComplex, hT, Bool.false_eq_true, if_false] at h
+    split at h
+    · rename_i c'' a b heq
+      cases heq
+      exact ⟨rfl, rfl, rfl⟩
+    · simp [attemptFromNumber, ha] at h
+  · have hi : ∀ b, b = Base.int ∨ b = .float ∨ b = .decimal ∨ b = .str → isInst (V.seq k c xs) b = false := by
+      intro b hb; rcases hb with rfl | rfl | rfl | rfl <;> cases k <;> simp [isInst, V.cls?, Base.sub, SeqK.base]
+    simp [toComplex, hT, fromByteLike, hi] at h
+
+theorem enumCall_ok (E : Env) (k : Nat) (v r : V) (hc : enumCall E k v = .ok r) :
+    ∃ decl i, E.enum? k = some decl ∧ r = .enum k i ∧
+      ∃ hi : i < decl.members.length, pyeq decl.members[i].2 v = true := by
+  unfold enumCall at hc
+  cases hd : E.enum? k with
+  | none => simp [hd] at hc
+  | some decl =>
+    simp only [hd] at hc
+    split at hc
+    · simp at hc
+    · cases hi : decl.members.findIdx? (fun m => pyeq m.2 v) with
+      | none => simp [hi] at hc
+      | some i =>
+        simp only [hi] at hc
+        obtain ⟨hlt, hp, _⟩ := List.findIdx?_eq_some_iff_getElem.mp hi
+        exact ⟨decl, i, rfl, by simpa using hc.symm, hlt, hp⟩
+
+/-- **C12_ndl_no_collapse_enum**: under no_data_loss a multi-element collection reaches an Enum member only by
+value — the member's value `==` the whole collection; it is never reduced to its first item -/
+theorem C12_ndl_no_collapse_enum (P : Prims) (E : Env) (n : Bool) (k' : Nat) (k : SeqK) (c : Nat) (xs : List V) (r : V)
+    (hm : multi (.seq k c xs) = true) (hl : xs.length > 1)
+    (h : toEnum P E ⟨n, true⟩ k' (.seq k c xs) = .ok r) :
+    ∃ decl i, E.enum? k' = some decl ∧ r = .enum k' i ∧
+      ∃ hi : i < decl.members.length, pyeq decl.members[i].2 (.seq k c xs) = true := by
+  cases n
+  · simp only [toEnum, Bool.false_eq_true, if_false] at h
+    cases hd : E.enum? k' with
+    | none => simp [hd] at h
+    | some decl =>
+      simp only [hd] at h
+      have hb : ∀ r', enumBody P E ⟨false, true⟩ k' decl (.seq k c xs) = .ok r' → enumCall E k' (.seq k c xs) = .ok r' := by
+        intro r' hb
+        unfold enumBody at hb
+        split at hb
+        · rename_i b hmt
+          obtain ⟨value, hv, hc⟩ := Outcome.bind_eq_ok.mp hb
+          unfold convBase at hv
+          split at hv
+          · simp at hv; subst hv; exact hc
+          · exfalso
+            have ha := attemptFrom_ndl_multi E k c xs hm hl
+            split at hv
+            · simp [toInteger, attemptFromNumber, ha] at hv
+            · simp [toFloat, attemptFromNumber, ha] at hv
+            · simp [toStr, ha] at hv
+            · simp at hv
+        · exact hb
+      cases hbo : enumBody P E ⟨false, true⟩ k' decl (.seq k c xs) with
+      | ok r' =>
+        simp only [hbo] at h
+        simp at h; subst h
+        obtain ⟨decl', i, hd', hr, hi⟩ := enumCall_ok E k' _ _ (hb r' hbo)
+        rw [hd] at hd'; cases hd'
+        exact ⟨decl, i, rfl, hr, hi⟩
+      | perr e => simp [hbo, enumNameFallback] at h
+      | escape e => simp [hbo, enumNameFallback] at h
+      | diverge => simp [hbo] at h
+      | unmodelled w => simp [hbo] at h
+  · simp only [toEnum, if_true] at h
+    exact enumCall_ok E k' _ _ h
+
+open Utv.C12M in
+/-- **C12_dataclass_input_mono_partial** (partial in `dataclass-list-under-nec`): what reaches `cls.__init__` of a data
+class under the running transformer's preferences `fr` reaches it without them, unchanged — outside
+`KnownDefect.dataclassListNec` (a list / tuple input under no_explicit_cast); `fc`: the data class's own options. -/
+theorem C12_dataclass_input_mono_partial (P : Prims) (E : Env) (fr fc : Flags) (v r : V)
+    (hk : KnownDefect.dataclassListNec fr v = false)
+    (h : dataclassInput P E fr fc v = .ok r) : dataclassInput P E ⟨false, false⟩ fc v = .ok r := by
+  have hu : ∀ d, dataclassUnwrap fr v = .ok d → dataclassUnwrap ⟨false, false⟩ v = .ok d := by
+    intro d hd
+    obtain ⟨n, dl⟩ := fr
+    cases n
+    · cases dl
+      · exact hd
+      · exact (C12_ndl_dataclass_list false .list 0 .none .none [] (Or.inl rfl)).2 v d hd
+    · cases v with
+      | seq k c xs =>
+        simp [KnownDefect.dataclassListNec] at hk
+        simp [dataclassUnwrap, hk] at hd ⊢
+        exact hd
+      | _ => simpa [dataclassUnwrap] using hd
+  unfold dataclassInput at h ⊢
+  obtain ⟨d, hd, h2⟩ := Outcome.bind_eq_ok.mp h
+  simp only [hu d hd, Outcome.ok_bind]
+  exact h2
+
+/-- **C12_ndl_int_unwrapped**: the same for whatever `_attempt_from_number` digs out (a one-element collection, an
+enum member's value, a timestamp of a datetime / timedelta): if that is a float or Decimal `d`, the int obtained
+under no_data_loss is the exact value of `d` -/
+theorem C12_ndl_int_unwrapped (P : Prims) (E : Env) (c : Nat) (v d r : V)
+    (hv : (match v with | .bool _ => false | .int _ _ => false | _ => true) = true)
+    (hfd : (match d with | .float _ _ => true | .dec _ _ => true | _ => false) = true)
+    (hd : attemptFromNumber P E ⟨false, true⟩ v = .ok d)
+    (h : toInteger P E ⟨false, true⟩ c v = .ok r) : ∃ i, r = .int c i ∧ exactInt? d = some i := by
+  have h' : intAfter P ⟨false, true⟩ c d = .ok r := by
+    cases v <;> simp at hv <;> simpa [toInteger, hd] using h
+  have hnot : isInstT d (.cls .int c) = false := by
+    cases d <;> simp at hfd <;> cases c <;> simp [isInstT, isInst, V.cls?, Base.sub]
+  have : intFinish P ⟨false, true⟩ c d = .ok r := by
+    cases d <;> simp at hfd <;> simpa [intAfter, hnot] using h'
+  exact intFinish_exact P false c d r hfd this
+
+/-- converters that decode a bytes-like input -/
+def decodingConv : Conv → Bool
+  | .str | .int | .float | .decimal | .complex | .datetime | .date | .timedelta | .time | .array | .dict => true
+  | _ => false
+
+/-- **C12_ndl_strict_decode_conv**: at converter level: under no_data_loss a bytes / bytearray / memoryview value
+is converted by a decoding converter only if the *strict* decoder accepts it -/
+theorem C12_ndl_strict_decode_conv (P : Prims) (E : Env) (n : Bool) (t : Target) (k : BytesK) (c : Nat)
+    (bs : List UInt8) (cv : Conv) (r : V) (hcv : decodingConv cv = true)
+    (h : runConv P E ⟨n, true⟩ t (.bytes k c bs) cv = .ok r) : ∃ s, decodeB P true bs = .ok s := by
+  have key : ∀ {α} (f : String → Outcome α) (x : α), (decodeB P true bs >>= f) = .ok x → ∃ s, decodeB P true bs = .ok s := by
+    intro α f x hx
+    obtain ⟨s, hs, _⟩ := Outcome.bind_eq_ok.mp hx
+    exact ⟨s, hs⟩
+  have hi : ∀ b, isInst (V.bytes k c bs) b = (k.base.sub b) := by intro b; simp [isInst, V.cls?]
+  have hT : ∀ b c', b ≠ Base.bytes → b ≠ .bytearray → b ≠ .memoryview → isInstT (V.bytes k c bs) (.cls b c') = false := by
+    intro b c' h1 h2 h3
+    cases c' <;> cases k <;> cases b <;> simp_all [isInstT, isInst, V.cls?, Base.sub, BytesK.base]
+  have fb : ∀ f' : Flags, f'.ndl = true → ∀ {α} (g : V → Outcome α) (x : α),
+      (fromByteLike P f' (V.bytes k c bs) >>= g) = .ok x → ∃ s, decodeB P true bs = .ok s := by
+    intro f' hf α g x hx
+    obtain ⟨d, hd, _⟩ := Outcome.bind_eq_ok.mp hx
+    simp only [fromByteLike, hf] at hd
+    exact key _ _ hd
+  cases cv <;> simp [decodingConv] at hcv
+  case str =>
+    cases n
+    · simp only [runConv, toStr, attemptFrom, Bool.false_eq_true, if_false, multi, Outcome.ok_bind] at h
+      exact fb _ rfl _ _ h
+    · simp only [runConv, toStr, attemptFrom, if_true, Outcome.ok_bind] at h
+      exact fb _ rfl _ _ h
+  all_goals
+    have fb2 : ∀ f' : Flags, f'.ndl = true → ∀ {α β} (g : V → Outcome α) (g' : α → Outcome β) (x : β),
+        ((fromByteLike P f' (V.bytes k c bs) >>= g) >>= g') = .ok x → ∃ s, decodeB P true bs = .ok s := by
+      intro f' hf α β g g' x hx
+      obtain ⟨y, hy, _⟩ := Outcome.bind_eq_ok.mp hx
+      exact fb f' hf g y hy
+  case int =>
+    cases n
+    · simp only [runConv, toInteger, attemptFromNumber, attemptFrom, Bool.false_eq_true, if_false, Outcome.ok_bind] at h
+      exact fb2 _ rfl _ _ _ h
+    · simp [runConv, toInteger, hi, Base.sub] at h
+      cases k <;> simp [BytesK.base] at h
+  case float =>
+    cases n
+    · simp only [runConv, toFloat, attemptFromNumber, attemptFrom, Bool.false_eq_true, if_false, Outcome.ok_bind] at h
+      exact fb2 _ rfl _ _ _ h
+    · simp [runConv, toFloat, hi, Base.sub] at h
+      cases k <;> simp [BytesK.base] at h
+  case decimal =>
+    cases n
+    · simp only [runConv, toDecimal, attemptFromNumber, attemptFrom, Bool.false_eq_true, if_false, Outcome.ok_bind] at h
+      obtain ⟨y, hy, _⟩ := Outcome.bind_eq_ok.mp h
+      exact fb _ rfl _ _ hy
+    · simp only [runConv, toDecimal, if_true] at h
+      obtain ⟨y, hy, _⟩ := Outcome.bind_eq_ok.mp h
+      exact fb _ rfl _ _ hy
+  case complex =>
+    simp only [runConv, toComplex, hT .complex _ (by decide) (by decide) (by decide), Bool.false_eq_true, if_false] at h
+    cases n
+    · simp only [attemptFromNumber, attemptFrom, Bool.false_eq_true, if_false, Outcome.ok_bind] at h
+      exact fb2 _ rfl _ _ _ h
+    · simp only [if_true] at h
+      exact fb _ rfl _ _ h
+  case datetime =>
+    simp only [runConv, toDatetime, hT .datetime _ (by decide) (by decide) (by decide), Bool.false_eq_true, if_false] at h
+    have hnum : (isInst (V.bytes k c bs) Base.int || isInst (V.bytes k c bs) Base.float || isInst (V.bytes k c bs) Base.decimal) = false := by
+      cases k <;> simp [isInst, V.cls?, Base.sub, BytesK.base]
+    cases n
+    · simp only [attemptFrom, Bool.false_eq_true, if_false, Outcome.ok_bind, hnum] at h
+      exact fb _ rfl _ _ h
+    · simp only [attemptFrom, if_true, Outcome.ok_bind, hnum, Bool.false_eq_true, if_false] at h
+      exact fb _ rfl _ _ h
+  case date =>
+    simp only [runConv, toDate] at h
+    obtain ⟨dt, hdt, _⟩ := Outcome.bind_eq_ok.mp h
+    simp only [toDatetime, hT .datetime _ (by decide) (by decide) (by decide), Bool.false_eq_true, if_false] at hdt
+    have hnum : (isInst (V.bytes k c bs) Base.int || isInst (V.bytes k c bs) Base.float || isInst (V.bytes k c bs) Base.decimal) = false := by
+      cases k <;> simp [isInst, V.cls?, Base.sub, BytesK.base]
+    cases n
+    · simp only [attemptFrom, Bool.false_eq_true, if_false, Outcome.ok_bind, hnum] at hdt
+      exact fb _ rfl _ _ hdt
+    · simp only [attemptFrom, if_true, Outcome.ok_bind, hnum, Bool.false_eq_true, if_false] at hdt
+      exact fb _ rfl _ _ hdt
+  case timedelta =>
+    simp only [runConv, toTimedelta, hT .timedelta _ (by decide) (by decide) (by decide), Bool.false_eq_true, if_false] at h
+    cases n
+    · simp only [attemptFrom, Bool.false_eq_true, if_false, Outcome.ok_bind] at h
+      exact fb _ rfl _ _ h
+    · simp only [attemptFrom, if_true, Outcome.ok_bind] at h
+      exact fb _ rfl _ _ h
+  case time =>
+    simp only [runConv, toTime, hT .time _ (by decide) (by decide) (by decide), Bool.false_eq_true, if_false] at h
+    cases n
+    · simp only [attemptFrom, Bool.false_eq_true, if_false, Outcome.ok_bind, if_true] at h
+      exact fb _ rfl _ _ h
+    · simp only [attemptFrom, if_true, Outcome.ok_bind] at h
+      exact fb _ rfl _ _ h
+  case array =>
+    simp only [runConv] at h
+    split at h
+    · split at h
+      · rename_i b c'' kk hkk
+        have hb : ∀ c', isInstT (V.bytes k c bs) (.cls kk.base c') = false := by
+          intro c'; cases c' <;> cases k <;> cases kk <;> simp [isInstT, isInst, V.cls?, Base.sub, BytesK.base, SeqK.base]
+        simp only [toArray, hb, Bool.false_eq_true, if_false, multi] at h
+        cases n
+        · simp only [Bool.false_eq_true, if_false] at h
+          exact fb _ rfl _ _ h
+        · simp at h
+      · simp at h
+    · simp at h
+  case dict =>
+    simp only [runConv, toDict, hT .dict _ (by decide) (by decide) (by decide), Bool.false_eq_true, if_false] at h
+    cases n
+    · simp only [Bool.false_eq_true, if_false, if_true, multi, dictRest, attemptFrom, Outcome.ok_bind] at h
+      exact fb _ rfl _ _ h
+    · simp at h
+
+/-! non-vacuity for the Union theorems with no_explicit_cast alone, and for `ho` / `hm` on an enum target -/
+
+open Utv.C12M in
+example : ∃ (P : Prims) (E : Env) (ts : List Target) (v r : V),
+    KnownDefect.unionNecChoice (transform P E) ⟨true, false⟩ ts v = false ∧
+    unionParse (transform P E) ⟨true, false⟩ ts v = .ok r :=
+  ⟨Pdev, E0, [.cls .float 0, .cls .str 0], .int 0 1, .float 0 (.fin 1 0), by rfl, by rfl⟩
+
+open Utv.C12M in
+example : ∃ (P : Prims) (E : Env) (ts : List Ty) (v r : V),
+    (∃ x, passFresh (ts.map fun t => (t.isRule, parseTy P E ⟨true, true⟩ t v)) = .ok (some x)) ∧
+    unionParseTy P E ⟨true, false⟩ ts v = .ok r :=
+  ⟨Pdev, E0, [.seqOf .list (.plain (.cls .float 0)), .plain (.cls .str 0)], .seq .list 0 [.int 0 1],
+    .seq .list 0 [.float 0 (.fin 1 0)], ⟨_, by rfl⟩, by rfl⟩
+
+example : KnownDefect P0 Eab ⟨true, true⟩ (.enum 0) (.str 0 "B") = false ∧
+    OutsideProof Eab ⟨true, true⟩ (.enum 0) (.str 0 "B") = false ∧
+    (∀ w, transformU P0 Eab ⟨false, false⟩ .throw (.enum 0) (.str 0 "B") ≠ .unmodelled w) ∧
+    transformU P0 Eab ⟨true, true⟩ .throw (.enum 0) (.str 0 "B") = .ok (.enum 0 0) :=
+  ⟨by rfl, by rfl, fun w h => by
+      simp [show transformU P0 Eab ⟨false, false⟩ .throw (.enum 0) (.str 0 "B") = .ok (.enum 0 0) from rfl] at h, by rfl⟩
+
+/-- `StrOfSeqLaw` is satisfiable -/
+example : StrOfSeqLaw P0 := fun _ _ _ _ h => by simp [P0] at h
+
+/-! ### preferences that arrive by inheritance / from an outer class (base.py:41-67, options.py:249-258) -/
+
+open Utv.C12M in
+/-- **C12_inherited_preferences_restates_model** (`declaredFlags` / `contextFlags` are hand models of `getattr` along
+the MRO and of `Options.make_context`, tied to the code by the `inherit` cases of the correspondence run only;
+the theorem unfolds them): a class that declares no options of its own (at any depth) is parsed under
 the preferences of its nearest base — so every promise above applies to it unchanged; and an overriding outer
 class imposes its preferences on a nested class that does not override itself. -/
-theorem C12_inherited_preferences (pre : List (Option Flags)) (f : Flags) (rest : List (Option Flags))
+theorem C12_inherited_preferences_restates_model (pre : List (Option Flags)) (f : Flags) (rest : List (Option Flags))
     (hp : ∀ x ∈ pre, x = none) :
     declaredFlags (pre ++ some f :: rest) = f ∧
     (∀ own fo, contextFlags (own, false) (some (fo, true)) = fo) := by
